@@ -109,17 +109,18 @@ let int_types = [| TGeneric; TI8; TU8; TI16; TU16; TI32; TU32; TI64; TU64 |]
 let twidth t = int_of_n (width t)
 
 (* nanc: print every NaN as `nan` (results of hardware float arithmetic) *)
-let show_value ?(nanc = false) (v : value) : string =
+let show_value ?(nanc = false) ?(canon_bits = 64) (v : value) : string =
+  let v = if v.vty = TGeneric && canon_bits < 64 then { v with vbits = n_of_z (Z.logand (z_of_n v.vbits) (Z.pred (Z.shift_left Z.one canon_bits))) } else v in
   let w = width v.vty in
   if nanc && (v.vty = TF32 || v.vty = TF64) && fis_nan w v.vbits then tname v.vty ^ ":nan"
   else tname v.vty ^ ":" ^ sn v.vbits
 let mkv t (z : Z.t) : value = { vty = t; vbits = n_of_z z }
 
-let show_loc = function
+let show_loc ?(canon_bits = 64) = function
   | LEmpty -> "E" | LRegister r -> "R:" ^ sn r | LAddress a -> "A:" ^ sn a
-  | LValue v -> "V:" ^ show_value ~nanc:true v | LBytes b -> "B:" ^ hex_of_bytes b
+  | LValue v -> "V:" ^ show_value ~nanc:true ~canon_bits v | LBytes b -> "B:" ^ hex_of_bytes b
   | LImplicitPointer (v, off) -> Printf.sprintf "IP:%s:%s" (sn v) (sz off)
-let show_piece (p : piece) = Printf.sprintf "[%s,%s,%s]" (sopt sn p.p_size) (sopt sn p.p_bit_offset) (show_loc p.p_loc)
+let show_piece ?(canon_bits = 64) (p : piece) = Printf.sprintf "[%s,%s,%s]" (sopt sn p.p_size) (sopt sn p.p_bit_offset) (show_loc ~canon_bits p.p_loc)
 let show_req = function
   | RMemory (a, s, sp, bt) -> Printf.sprintf "Memory:%s:%s:%s:%s" (sn a) (sn s) (sopt sn sp) (sn bt)
   | RRegister (r, bt) -> Printf.sprintf "Register:%s:%s" (sn r) (sn bt)
@@ -131,11 +132,11 @@ let show_req = function
   | RIndexedAddress (i, r) -> Printf.sprintf "IndexedAddress:%s:%s" (sn i) (sb r)
   | RBaseType o -> "BaseType:" ^ sn o
 let show_reqs l = if l = [] then "-" else String.concat "," (List.map show_req l)
-let show_trace ((reqs, fin) : trace) : string =
+let show_trace ?(canon_bits = 64) ((reqs, fin) : trace) : string =
   match fin with
   | FComplete (ps, vr, _, _) ->
-      Printf.sprintf "ok complete %s %s %s" (if ps = [] then "-" else String.concat "" (List.map show_piece ps))
-        (sopt (show_value ~nanc:true) vr) (show_reqs reqs)
+      Printf.sprintf "ok complete %s %s %s" (if ps = [] then "-" else String.concat "" (List.map (show_piece ~canon_bits) ps))
+        (sopt (show_value ~nanc:true ~canon_bits) vr) (show_reqs reqs)
   | FStuck -> "ok waiting " ^ show_reqs reqs
   | FErr e -> Printf.sprintf "err %s %s" (Errnames.name e) (show_reqs reqs)
   | FPanic -> "panic"
@@ -520,5 +521,96 @@ let () =
                   obj = (if rand_int r 3 = 0 then Some (rand_u r) else None);
                   small = rand_int r 5 = 0 } in
         eval_case emit c prog answers
+      done)
+
+(* ------------------------------------------------------------------ c07.spec: gimli against the DWARF stack
+   machine of Spec/StackSpec.v (value algebra on canonical values).  `n` cases are inside the domain of
+   theorem value_ops, `k` cases are the known class of shift_count_refuted (generic shift count with bits
+   beyond the address size). *)
+let spec_bin (sz : int) (name : string) : (value -> value -> value Res.res) =
+  let z = n_of_int sz in
+  match name with
+  | "add" -> StackSpec.sp_add z the_fops | "sub" -> StackSpec.sp_sub z the_fops | "mul" -> StackSpec.sp_mul z the_fops
+  | "div" -> StackSpec.sp_div z the_fops | "rem" -> StackSpec.sp_rem z
+  | "and" -> StackSpec.sp_and | "or" -> StackSpec.sp_or | "xor" -> StackSpec.sp_xor
+  | "shl" -> StackSpec.sp_shl z | "shr" -> StackSpec.sp_shr z | "shra" -> StackSpec.sp_shra z
+  | "eq" -> StackSpec.sp_eq z | "ge" -> StackSpec.sp_ge z | "gt" -> StackSpec.sp_gt z
+  | "le" -> StackSpec.sp_le z | "lt" -> StackSpec.sp_lt z | "ne" -> StackSpec.sp_ne z
+  | _ -> failwith "spec_bin"
+let is_shift name = (name = "shl" || name = "shr" || name = "shra")
+let spec_value_bin emit (name, nanc, _) (sz : int) (a : value) (b : value) =
+  let cls = if is_shift name && b.vty = TGeneric && Z.geq (z_of_n b.vbits) (p2 (8 * sz)) then "k" else "n" in
+  let zs = n_of_int sz in
+  both emit (Printf.sprintf "c07.spec v %s %s %d %s %s" cls name sz (show_value a) (show_value b)) (fun _ ->
+    show_res (show_value ~nanc) (spec_bin sz name (StackSpec.canon zs a) (StackSpec.canon zs b)))
+let spec_value_un emit (name : string) (sz : int) (a : value) =
+  let zs = n_of_int sz in
+  both emit (Printf.sprintf "c07.spec v n %s %d %s -" name sz (show_value a)) (fun _ ->
+    let ca = StackSpec.canon zs a in
+    show_res show_value (match name with
+      | "abs" -> StackSpec.sp_abs zs ca | "neg" -> StackSpec.sp_neg zs ca | _ -> StackSpec.sp_not zs ca))
+let spec_value_cvt emit (name : string) (sz : int) (a : value) (t : vtype) =
+  let zs = n_of_int sz in
+  both emit (Printf.sprintf "c07.spec v n %s %d %s %s" name sz (show_value a) (tname t)) (fun _ ->
+    let ca = StackSpec.canon zs a in
+    if name = "convert" then show_res (show_value ~nanc:true) (StackSpec.sp_convert zs the_fops ca t)
+    else show_res show_value (StackSpec.sp_reinterpret zs ca t))
+
+(* a program and the same program with every generic shift count explicitly reduced (`const M-1; and`,
+   the identity on canonical generic values): the DWARF meaning of P is the model's result on P' *)
+let spec_eval_witness emit (e : encd) (p : int list) (p' : int list) =
+  let c = { e; maxit = Some 40; init = None; obj = None; small = false } in
+  let cfg : cfg = { c_enc = enc_of c.e; c_obj = None; c_max = Some (n_of_int 40); c_init = None;
+                    c_cap_stack = None; c_cap_expr = None; c_cap_res = None } in
+  let case = Printf.sprintf "c07.spec e k %s 40 - - h %s" (enc_toks e) (hex_of_ints p) in
+  both emit case (fun dbg -> show_trace ~canon_bits:(8 * e.asz) (run the_fops (nat_of_int 42) dbg cfg (bytes_of_ints p') []))
+
+let () =
+  register "c07.spec" ~doc:"gimli's Value operations (results reduced modulo the address size) against the specification algebra of Spec/StackSpec.v; class k = generic shift counts beyond the address size (known finding)"
+    (fun ~seed ~n emit ->
+      let thorough = n >= 400000 in
+      let spec_types = if thorough then all_types else [| TGeneric; TI8; TU16; TI32; TU64; TF32; TF64 |] in
+      List.iter (fun sz ->
+        List.iter (fun ((name, _, _) as op) ->
+          Array.iter (fun t ->
+            let vs = values_of_type t in
+            let vs = if thorough || t = TGeneric then vs else List.filteri (fun i _ -> i mod 2 = 0 || i < 4) vs in
+            List.iter (fun a -> List.iter (fun b -> spec_value_bin emit op sz (mkv t a) (mkv t b)) vs) vs;
+            Array.iter (fun t2 -> if t2 <> t then
+              List.iter (fun b -> spec_value_bin emit op sz (mkv t (List.hd (few_of_type t))) (mkv t2 b)) (few_of_type t2)) all_types;
+            if is_shift name then
+              Array.iter (fun t2 ->
+                for cnt = 0 to 70 do
+                  if cnt < (1 lsl (min 20 (twidth t2))) then
+                    List.iter (fun a -> spec_value_bin emit op sz (mkv t a) (mkv t2 (Z.of_int cnt)))
+                      (match t with TF32 | TF64 -> [Z.zero] | _ -> [Z.of_int 5; Z.succ (p2 (twidth t - 1))])
+                done) (if thorough then int_types else [| TGeneric; TI8; TU64 |])) spec_types) binops;
+        Array.iter (fun t -> List.iter (fun a ->
+          List.iter (fun nm -> spec_value_un emit nm sz (mkv t a)) ["abs"; "neg"; "not"];
+          Array.iter (fun t2 -> spec_value_cvt emit "convert" sz (mkv t a) t2; spec_value_cvt emit "reinterpret" sz (mkv t a) t2) all_types)
+          (values_of_type t)) spec_types) [1; 2; 4; 8];
+      (* evaluator-level witnesses of the known class *)
+      List.iter (fun asz ->
+        let e = { asz; f64 = false; ver = 4; be = false } in
+        let m = p2 (8 * asz) in
+        let cst z = (match asz with 1 -> [0x08] | 2 -> [0x0a] | _ -> [0x0c]) @ fixed false asz z in
+        let norm = cst (Z.pred m) @ [0x1a] in
+        List.iter (fun sh ->
+          (* 1 << ((M/2+1) << 1)   and   0x40 >> (~(M-2)) *)
+          spec_eval_witness emit e ([0x31] @ cst (Z.succ (Z.shift_right m 1)) @ [0x31; 0x24; sh])
+                                   ([0x31] @ cst (Z.succ (Z.shift_right m 1)) @ [0x31; 0x24] @ norm @ [sh]);
+          spec_eval_witness emit e ([0x08; 0x40] @ cst (Z.sub m (Z.of_int 2)) @ [0x20; sh])
+                                   ([0x08; 0x40] @ cst (Z.sub m (Z.of_int 2)) @ [0x20] @ norm @ [sh]))
+          [0x24; 0x25; 0x26]) [1; 2; 4];
+      let r = mk_rng seed in
+      for _ = 1 to n do
+        let sz = pick r [| 1; 2; 4; 8 |] in
+        let t = pick r all_types in
+        let t2 = if rand_int r 4 = 0 then pick r all_types else t in
+        match rand_int r 10 with
+        | 0 -> spec_value_un emit (pick r [| "abs"; "neg"; "not" |]) sz (rand_value r t)
+        | 1 -> spec_value_cvt emit (pick r [| "convert"; "reinterpret" |]) sz (rand_value r t) (pick r all_types)
+        | 2 -> spec_value_bin emit (List.nth binops (8 + rand_int r 3)) sz (rand_value r (pick r int_types)) (rand_value r (pick r int_types))
+        | _ -> spec_value_bin emit (List.nth binops (rand_int r 17)) sz (rand_value r t) (rand_value r t2)
       done)
 let init () = ()
